@@ -629,9 +629,15 @@ fn logical_or<'s>(input: &mut &'s str) -> PResult<(), SemverParseError<&'s str>>
 }
 
 fn range<'s>(input: &mut &'s str) -> PResult<Vec<BoundSet>, SemverParseError<&'s str>> {
+    // An alternative with nothing in it (``, `1.2.3 || `, ` || 2.x`) is `*`
+    // in node-semver; it is the same bounds the text `*` parses to.
+    let blank = Parser::map(
+        terminated(space0, peek(alt((literal("||"), eof)))),
+        |_: &str| partial_bounds(Partial::any()).into_iter().collect(),
+    );
     // TODO: loose parsing means that `1.2.3 foo` translates to `1.2.3`, so we
     // need to do some stuff here to filter out unwanted BoundSets.
-    Parser::map(
+    let comparators = Parser::map(
         separated(0.., simple, space1),
         |bs: Vec<Option<BoundSet>>| {
             // All comparators of one alternative must hold at once: if they
@@ -645,8 +651,8 @@ fn range<'s>(input: &mut &'s str) -> PResult<Vec<BoundSet>, SemverParseError<&'s
                 None => Vec::new(),
             }
         },
-    )
-    .parse_next(input)
+    );
+    alt((blank, comparators)).parse_next(input)
 }
 
 // simple ::= primitive | partial | tilde | caret | garbage
@@ -864,6 +870,19 @@ struct Partial {
     patch: Option<u64>,
     pre_release: Vec<Identifier>,
     build: Vec<Identifier>,
+}
+
+impl Partial {
+    /// The partial `*`.
+    fn any() -> Self {
+        Partial {
+            major: None,
+            minor: None,
+            patch: None,
+            pre_release: vec![],
+            build: vec![],
+        }
+    }
 }
 
 impl From<Partial> for Version {
